@@ -1,2 +1,28 @@
-(* placeholder until the theorems are integrated *)
-From SE Require Import Model.System.
+(* C19 - A configuration that loads is safe to run; one that is invalid is rejected. *)
+From SE Require Import Spec.PipelineSpec Proofs.PipelineProofs.
+
+(* everything [load] lets through has increasing buckets, quantiles in [0,1], non-negative ages,
+   legal label keys, a legal name template and a legal glob match *)
+Theorem C19_load_valid : stmt_load_valid.
+Proof. exact load_valid_ok. Qed.
+Print Assumptions C19_load_valid.
+
+(* and with only such configurations ever installed, no input makes the pipeline panic ... *)
+Theorem C19_loaded_never_panics : forall pf uni_word re_match heur_bt re_compiles CS c_get c_add c_reset builtins,
+  stmt_pipeline_no_panic pf uni_word re_match heur_bt re_compiles CS c_get c_add c_reset builtins.
+Proof. exact pipeline_no_panic_ok. Qed.
+Print Assumptions C19_loaded_never_panics.
+(* ... nor a scrape fail (reserved rule labels are refused per event, C03_scrape_ok) *)
+Theorem C19_loaded_scrapes_ok : forall pf uni_word re_match heur_bt re_compiles CS c_get c_add c_reset builtins,
+  stmt_scrape_ok pf uni_word re_match heur_bt re_compiles CS c_get c_add c_reset builtins.
+Proof. intros. unfold stmt_scrape_ok. intros. eapply scrape_ok_ok; eauto. Qed.
+Print Assumptions C19_loaded_scrapes_ok.
+
+(* the rejected classes: illegal label key, illegal metric name, malformed glob match, regex that
+   does not compile, unknown enum value, contradictory legacy/new options, YAML errors *)
+Theorem C19_load_rejects : stmt_load_rejects.
+Proof. exact load_rejects_ok. Qed.
+Print Assumptions C19_load_rejects.
+Theorem C19_load_rejects_unparsable : stmt_load_rejects_unparsable.
+Proof. exact load_rejects_unparsable_ok. Qed.
+Print Assumptions C19_load_rejects_unparsable.
